@@ -858,11 +858,14 @@ class Compiler:
                 protocol_version=protocol_version,
             )
 
-            t_out = {
-                name: cast(s_types.Type, schema.get_by_id(turbo_uuid.UUID(id)))
+            t_out = [
+                (
+                    name,
+                    cast(s_types.Type, schema.get_by_id(turbo_uuid.UUID(id))),
+                )
                 for name, id in in_out[1]
-            }
-            assert all(isinstance(t, s_types.Type) for t in t_out.values())
+            ]
+            assert all(isinstance(t, s_types.Type) for _, t in t_out)
 
             output_desc, output_desc_id = sertypes.describe_sql_result(
                 schema=schema, row=t_out,
